@@ -18,6 +18,7 @@ PROP = {
         {"name": "pool_c", "quick": 100000, "thorough": 3000000, "maxlen": 320},
         {"name": "pool_cxx", "quick": 100000, "thorough": 3000000, "maxlen": 320},
         {"name": "object_pool", "quick": 100000, "thorough": 3000000, "maxlen": 320},
+        {"name": "pool_c_two_zones", "quick": 60000, "thorough": 1000000, "maxlen": 320},
         {"name": "pool_cxx_reinit", "quick": 60000, "thorough": 1000000, "maxlen": 320},
         {"name": "pool_c_big", "quick": 30000, "thorough": 200000, "maxlen": 320},
         {"name": "pool_cxx_big", "quick": 20000, "thorough": 200000, "maxlen": 320},
